@@ -408,4 +408,6 @@ RULES = [
     ("C16.R5", "shared configuration objects are not mutated per sample/block", r5),
     ("C16.R6", "append-mode outputs are truncated first (repetition)", r6),
 ]
-FLOORS = {"C16.R1": 10, "C16.R2": 6, "C16.R3": 6, "C16.R4": 1, "C16.R5": 3, "C16.R6": 1}
+# instance floors: about 60% of the instances confirmed by hand on the reference tree -- a rule that suddenly matches far fewer
+# sites fails the run (exit 2); a clean-up that merges two sites into one does not
+FLOORS = {"C16.R1": 6, "C16.R2": 3, "C16.R3": 3, "C16.R4": 1, "C16.R5": 1, "C16.R6": 1}
